@@ -21,7 +21,7 @@ use crate::error::{Result, ZiporaError};
 use std::alloc::{Layout, alloc, dealloc};
 use std::cell::UnsafeCell;
 use std::ptr::NonNull;
-use std::sync::atomic::{AtomicU32, AtomicU64, AtomicUsize, Ordering};
+use std::sync::atomic::{AtomicU32, AtomicU64, AtomicUsize, Ordering, fence};
 use std::sync::{Arc, Mutex};
 
 /// Alignment for fixed capacity allocations
@@ -151,8 +151,13 @@ impl FixedCapacityPoolStats {
 /// Free list head for a size class
 #[derive(Debug)]
 struct FreeListHead {
-    /// Head of free list (as offset)
-    head: AtomicU32,
+    /// Head of free list, packed as `(generation << 32) | offset`.
+    ///
+    /// The generation is advanced by every successful pop and push, so a
+    /// compare-exchange that still holds a head word read before other threads
+    /// popped and re-pushed the same offset fails instead of installing a stale
+    /// `next` (ABA). The offset half keeps the `LIST_TAIL` sentinel.
+    head: AtomicU64,
     /// Count of free blocks in this size class
     count: AtomicU32,
 }
@@ -160,9 +165,27 @@ struct FreeListHead {
 impl FreeListHead {
     fn new() -> Self {
         Self {
-            head: AtomicU32::new(LIST_TAIL),
+            head: AtomicU64::new(Self::pack(0, LIST_TAIL)),
             count: AtomicU32::new(0),
         }
+    }
+
+    /// Pack a generation and a block offset into a head word
+    #[inline]
+    fn pack(generation: u32, offset: u32) -> u64 {
+        ((generation as u64) << 32) | offset as u64
+    }
+
+    /// Offset half of a head word (a block offset or `LIST_TAIL`)
+    #[inline]
+    fn offset_of(word: u64) -> u32 {
+        word as u32
+    }
+
+    /// Head word that replaces `current` with `offset` and the next generation
+    #[inline]
+    fn advance(current: u64, offset: u32) -> u64 {
+        Self::pack(((current >> 32) as u32).wrapping_add(1), offset)
     }
 }
 
@@ -459,7 +482,7 @@ impl FixedCapacityMemoryPool {
         }
 
         // Set up free list head
-        free_list.head.store(0, Ordering::Relaxed);
+        free_list.head.store(FreeListHead::pack(0, 0), Ordering::Relaxed);
         free_list.count.store(self.config.total_blocks as u32, Ordering::Relaxed);
 
         Ok(())
@@ -494,7 +517,7 @@ impl FixedCapacityMemoryPool {
         }
 
         // Set up free list head
-        free_list.head.store(0, Ordering::Relaxed);
+        free_list.head.store(FreeListHead::pack(0, 0), Ordering::Relaxed);
         free_list.count.store(self.config.total_blocks as u32, Ordering::Relaxed);
 
         Ok(())
@@ -508,8 +531,9 @@ impl FixedCapacityMemoryPool {
         // Try to pop from free list
         loop {
             let current_head = free_list.head.load(Ordering::Acquire);
+            let current_offset = FreeListHead::offset_of(current_head);
             
-            if current_head == LIST_TAIL {
+            if current_offset == LIST_TAIL {
                 // Try to split from larger size class
                 return self.allocate_by_splitting(size_class_index);
             }
@@ -517,20 +541,27 @@ impl FixedCapacityMemoryPool {
             // Get pointer to current head block
             let memory = unsafe { (*self.memory.get()).ok_or_else(|| 
                 ZiporaError::invalid_data("Memory not allocated"))? };
-            let block_ptr = unsafe { memory.as_ptr().add(current_head as usize) };
+            let block_ptr = unsafe { memory.as_ptr().add(current_offset as usize) };
             let header = unsafe { &*(block_ptr as *const BlockHeader) };
 
             // Verify header integrity
             if header.magic != BLOCK_HEADER_MAGIC {
+                // The header is only meaningful while the block is still the list
+                // head: if the head word moved on, another thread popped this block
+                // and its owner may have overwritten the header. Retry in that case.
+                fence(Ordering::Acquire);
+                if free_list.head.load(Ordering::Relaxed) != current_head {
+                    continue;
+                }
                 return Err(ZiporaError::invalid_data("Block header corrupted"));
             }
 
             let next_offset = header.next;
 
-            // Try to update head atomically
+            // Try to update head atomically (full word: a stale generation fails)
             if free_list.head.compare_exchange_weak(
                 current_head,
-                next_offset,
+                FreeListHead::advance(current_head, next_offset),
                 Ordering::Release,
                 Ordering::Relaxed,
             ).is_ok() {
@@ -549,7 +580,7 @@ impl FixedCapacityMemoryPool {
         for larger_class in (size_class_index + 1)..self.size_classes.len() {
             let free_lists = unsafe { &*self.free_lists.get() };
             let free_list = &free_lists[larger_class];
-            let head = free_list.head.load(Ordering::Acquire);
+            let head = FreeListHead::offset_of(free_list.head.load(Ordering::Acquire));
             
             if head != LIST_TAIL {
                 // Try to allocate from larger class and split
@@ -583,11 +614,11 @@ impl FixedCapacityMemoryPool {
         // Add to free list
         loop {
             let current_head = free_list.head.load(Ordering::Acquire);
-            header.next = current_head;
+            header.next = FreeListHead::offset_of(current_head);
 
             if free_list.head.compare_exchange_weak(
                 current_head,
-                offset,
+                FreeListHead::advance(current_head, offset),
                 Ordering::Release,
                 Ordering::Relaxed,
             ).is_ok() {
